@@ -98,7 +98,7 @@ func runC19(t *testing.T, seed int64, n int, out *Out) {
 		t.Fatalf("leveldb: %v", err)
 	}
 	apps := []*simapp.ElysApp{c19NewApp(t, dbm.NewMemDB(), t.TempDir()), c19NewApp(t, dbm.NewMemDB(), t.TempDir()), c19NewApp(t, disk, home), c19NewApp(t, disk4, home4)}
-	gs, valSet, _, _ := simapp.GenesisStateWithValSet(apps[0])
+	gs, valSet := detGenesisState(apps[0], seed)
 	stateBytes, err := json.MarshalIndent(gs, "", " ")
 	if err != nil {
 		t.Fatal(err)
